@@ -9,6 +9,8 @@
 
 #include <symengine/printers/strprinter.h>
 #include <sstream>
+#include <string>
+#include <vector>
 
 namespace verif_positive
 {
@@ -44,5 +46,14 @@ long residue_of_exponent(const SymEngine::Integer &e)
 {
     long rem = e.as_int() % 4;
     return rem;
+}
+
+// R44.11: a forward loop that prepends its elements reverses their order
+void stack_lines_reversed(std::vector<std::string> &out,
+                          const std::vector<std::string> &top)
+{
+    for (const std::string &line : top) {
+        out.insert(out.begin(), "  " + line);
+    }
 }
 } // namespace verif_positive
